@@ -57,6 +57,10 @@ func genC12(p *Plan, r *RNG) {
 			p.Reactions = append(p.Reactions, Reaction{Method: "binding", Txn: i + 1, Do: "drop"})
 		case 6: // error response
 			p.Reactions = append(p.Reactions, Reaction{Method: "binding", Txn: i + 1, Do: "err:400"})
+		case 7: // (no reaction scripted: answered at once) - or, half of the time, answered first by somebody else
+			if r.Chance(1, 2) {
+				p.Reactions = append(p.Reactions, Reaction{Method: "binding", Txn: i + 1, Attempt: r.Range(1, 3), Do: "stranger"})
+			}
 		}
 	}
 	switch r.Intn(6) {
